@@ -31,6 +31,7 @@ func run(r *vk.Run) {
 	messageLevel(r)
 	logicClause(r)
 	streamClause(r)
+	streamLossy(r)
 
 	q := r.Quick()
 	req := func(counter string, quick, thorough int) {
